@@ -199,6 +199,7 @@ def decide_and_report(pid, tier, seed, cfg, report, scratch):
                 exit_code = 1
             else:
                 lines.append(f'  bounded stand-in: {cases} grid cases of {len(ops)} operations agree with the specification (proves nothing; still undecided)')
+    deferred = []
     for idx, o in enumerate(violations):
         rp = os.path.join(OUT, 'replays', f'{pid}-{idx}.json')
         rec = dict(property=pid, obligation=o['id'], function=o.get('fn'), clause=o.get('expr'), backend=o.get('backend'),
@@ -214,6 +215,13 @@ def decide_and_report(pid, tier, seed, cfg, report, scratch):
         if cex:
             rec['counterexample'] = cex
             rec['replayed'] = cex.get('replayed')
+        elif o.get('kind') == 'loopinv':
+            # a loop invariant is proof scaffolding spliced onto a loop by its position; when it stops holding and no input makes the
+            # real code fail, nothing says the PROPERTY is violated (the loop may have been restructured): like a lost anchor this is
+            # undecided, never an alarm.  The property's grids still run below and alarm with a failing input if there is one; a
+            # failed POSTCONDITION (the property clause itself) is reported as a violation with or without an input.
+            deferred.append(o)
+            continue
         else:
             rec['counterexample'] = None
             suffix = ' no-failing-input-found'
@@ -254,6 +262,17 @@ def decide_and_report(pid, tier, seed, cfg, report, scratch):
             exit_code = 1
         elif grids_ran:
             lines.append(f'  replay grids (bounded, {tier} tier): {cases} cases of {len(grid_ops)} operations agree with the specification' + (f' apart from {len(grid_known)} recorded open finding(s)' if grid_known else ''))
+    if deferred:
+        violations = [v for v in violations if v not in deferred]
+        for o in deferred:
+            u = f'unit {o.get("unit")}: loop invariant {o["id"]} no longer holds ({o.get("backend")}) and no input of the bounded grids makes the real code fail: proof scaffolding, undecided'
+            report['undecided'].append(u)
+            if exit_code != 1:
+                lines.append(f'UNDECIDED property={pid} {u}')
+            else:
+                lines.append(f'  (also: loop invariant {o["id"]} no longer holds)')
+        if exit_code == 0:
+            exit_code = 2
     if tier != 'thorough':
         # open findings of the bounded grids are only re-run by the thorough tier; the quick tier still lists them
         for k in known:
